@@ -22,7 +22,7 @@ from . import core
 from .core import walk, key, const_val
 
 MAXC = 60          # max constraints per state
-DEPTH = 5
+DEPTH = 3
 
 
 class Lin:
@@ -78,18 +78,86 @@ class State:
         self.cons = {}            # norm-terms -> const  (terms..., max const kept = strongest)
         self.info = info          # shared AtomInfo
         self.condfacts = {}       # var name -> list of Lin (<=0) valid when var != NULL
+        self.cong = {}            # var name -> (k, base Lin): var = base + k*t for an integer t (k == 0: exact)
         self.bottom = False
 
     def copy(self):
         s = State(self.info)
         s.cons = dict(self.cons)
         s.condfacts = {k: list(v) for k, v in self.condfacts.items()}
+        s.cong = dict(self.cong)
         s.bottom = self.bottom
         return s
 
+    # --- congruences
+    def cong_forget(self, name):
+        """variable `name` gets an unknown value: drop its own entry; weaken entries whose base mentions it"""
+        from math import gcd
+        self.cong.pop(name, None)
+        new = {}
+        for v, (k, b) in self.cong.items():
+            cv = b.t.get(name)
+            if not cv:
+                new[v] = (k, b)
+                continue
+            k2 = gcd(k, abs(cv))
+            if k2 > 1:
+                b2 = b.add(atom(name), -cv)
+                new[v] = (k2, b2)
+        self.cong = new
+
+    def cong_shift(self, name, delta):
+        """name := name + delta"""
+        new = {}
+        for v, (k, b) in self.cong.items():
+            if v == name:
+                new[v] = (k, b.plus(delta))
+            elif name in b.t:
+                new[v] = (k, b.plus(-b.t[name] * delta))
+            else:
+                new[v] = (k, b)
+        self.cong = new
+
+    def cong_join(self, o):
+        from math import gcd
+        r = {}
+        for v in set(self.cong) & set(o.cong):
+            (k1, b1), (k2, b2) = self.cong[v], o.cong[v]
+            d = b1.add(b2, -1)
+            if not d.is_const():
+                continue
+            k = gcd(gcd(k1, k2), abs(d.c))
+            if k == 0:
+                r[v] = (0, b1)
+            elif k > 1:
+                r[v] = (k, b1)
+        return r
+
+    def residue(self, lin, k, depth=3):
+        """lin mod k as an int if determined by the congruences, else None"""
+        cur = lin
+        for _ in range(depth):
+            changed = False
+            for a, cf in list(cur.t.items()):
+                if cf % k == 0:
+                    continue
+                e = self.cong.get(a)
+                if e is not None and e[0] % k == 0:
+                    cur = cur.add(atom(a), -cf).add(e[1], cf)
+                    changed = True
+            if not changed:
+                break
+        if all(cf % k == 0 for cf in cur.t.values()):
+            return cur.c % k
+        return None
+
     # --- constraints
+    def _dirty(self):
+        self.__dict__.pop("_memo", None)
+
     def add(self, lin):
         """assume lin <= 0"""
+        self._dirty()
         if lin.is_const():
             if lin.c > 0:
                 self.bottom = True
@@ -101,6 +169,25 @@ class State:
             if len(self.cons) < MAXC or terms in self.cons:
                 self.cons[terms] = lin.c
 
+    def add_weak(self, lin):
+        """record lin <= 0 as an additional explicit constraint even if a stronger one with the same
+        terms exists (constraints are keyed by terms: keep the weaker one under a scaled key)"""
+        self._dirty()
+        terms = tuple(sorted(lin.t.items()))
+        c = self.cons.get(terms)
+        if c is None:
+            if len(self.cons) < MAXC:
+                self.cons[terms] = lin.c
+            return
+        if c >= lin.c and c != lin.c:
+            # a stronger constraint is stored: keep the weak one under the doubled form 2*lin <= 0
+            t2 = tuple(sorted((a, 2 * v) for a, v in lin.t.items()))
+            if t2 not in self.cons or self.cons[t2] < 2 * lin.c:
+                if len(self.cons) < MAXC:
+                    self.cons[t2] = 2 * lin.c
+        elif lin.c > c:
+            self.cons[terms] = lin.c
+
     def add_eq(self, a, b):
         self.add(a.add(b, -1))
         self.add(b.add(a, -1))
@@ -110,6 +197,7 @@ class State:
             yield Lin(dict(terms), c)
 
     def forget_atoms(self, pred):
+        self._dirty()
         self.cons = {t: c for t, c in self.cons.items() if not any(pred(a) for a, _ in t)}
         self.condfacts = {k: [l for l in v if not any(pred(a) for a in l.t)] for k, v in self.condfacts.items()}
 
@@ -117,14 +205,23 @@ class State:
         info = self.info
         self.forget_atoms(lambda a: name in info.vars(a))
         self.condfacts.pop(name, None)
+        self.cong_forget(name)
 
     def havoc_mem(self):
         info = self.info
         self.forget_atoms(lambda a: info.is_mem(a))
 
     def subst_var(self, name, delta):
-        """var := var + delta  (invertible update): replace atom name by (name - delta)"""
+        """var := var + delta  (invertible update; delta is an int or a Lin not mentioning var):
+        every occurrence of the atom is replaced by (var - delta)"""
+        self._dirty()
+        if not isinstance(delta, Lin):
+            delta = Lin({}, delta)
         info = self.info
+        if delta.is_const():
+            self.cong_shift(name, delta.c)
+        else:
+            self.cong_forget(name)
         new = {}
         for terms, c in self.cons.items():
             lin = Lin(dict(terms), c)
@@ -133,7 +230,7 @@ class State:
             if bad:
                 continue
             if cf:
-                lin = lin.plus(-cf * delta)
+                lin = lin.add(delta, -cf)
             t2 = tuple(sorted(lin.t.items()))
             if t2 not in new or lin.c > new[t2]:
                 new[t2] = lin.c
@@ -147,9 +244,29 @@ class State:
                 if any((a != name and name in info.vars(a)) for a in l.t):
                     continue
                 cf = l.t.get(name)
-                out.append(l.plus(-cf * delta) if cf else l)
+                out.append(l.add(delta, -cf) if cf else l)
             cfs[k] = out
         self.condfacts = cfs
+
+    def scale_var(self, name, k):
+        """var := k * var  (k > 0)"""
+        self._dirty()
+        info = self.info
+        new = {}
+        for terms, c in self.cons.items():
+            lin = Lin(dict(terms), c)
+            if any((a != name and name in info.vars(a)) for a in lin.t):
+                continue
+            cf = lin.t.get(name)
+            if cf:
+                rest = lin.add(atom(name), -cf)
+                lin = rest.scale(k).add(atom(name), cf)
+            t2 = tuple(sorted(lin.t.items()))
+            if t2 not in new or lin.c > new[t2]:
+                new[t2] = lin.c
+        self.cons = new
+        self.cong_forget(name)
+        self.condfacts.pop(name, None)
 
     # --- entailment
     def _trivial(self, g):
@@ -163,9 +280,30 @@ class State:
         return True
 
     def entails(self, g, depth=DEPTH, seen=None):
-        """state => g <= 0 ?"""
+        """state => g <= 0 ?  quick elimination first, then an LP with an exactly verified Farkas certificate"""
         if self.bottom:
             return True
+        if self._trivial(g):
+            return True
+        if seen is None:
+            if self._elim(g, min(depth, 2), set()):
+                return True
+            key_ = (g.norm(), depth > 0)
+            memo = self.__dict__.setdefault("_memo", {})
+            if key_ in memo:
+                return memo[key_]
+            from . import lp
+            cons = [(dict(t), c) for t, c in self.cons.items()]
+            for a in set(g.t) | {a for t, c in self.cons.items() for a, _ in t}:
+                ub = self.info.ub(a)
+                if ub is not None and ub < (1 << 32):
+                    cons.append(({a: 1}, -ub))
+            r = lp.entails(cons, g.t, g.c, self.info.nonneg)
+            memo[key_] = r
+            return r
+        return self._elim(g, depth, seen)
+
+    def _elim(self, g, depth, seen):
         if self._trivial(g):
             return True
         if depth == 0:
@@ -191,7 +329,7 @@ class State:
                 if not cc or (cc > 0) != (cg > 0):
                     continue
                 g2 = g.scale(abs(cc)).add(c, -abs(cg))
-                if self.entails(g2, depth - 1, seen):
+                if self._elim(g2, depth - 1, seen):
                     return True
         return False
 
@@ -215,6 +353,22 @@ class State:
         for k in set(self.condfacts) & set(o.condfacts):
             a, b = self.condfacts[k], o.condfacts[k]
             r.condfacts[k] = [l for l in a if any(l.norm() == m.norm() for m in b)]
+        r.cong = self.cong_join(o)
+        # two-point lines: variables that are exact points (v = base + c) in both states with different offsets
+        pts = []
+        for v in set(self.cong) & set(o.cong):
+            (k1, b1), (k2, b2) = self.cong[v], o.cong[v]
+            if k1 == 0 and k2 == 0:
+                d = b2.add(b1, -1)
+                if d.is_const() and d.c != 0:
+                    pts.append((v, b1, d.c))
+        for i in range(len(pts)):
+            for j in range(i + 1, len(pts)):
+                (u, bu, du), (v, bv, dv) = pts[i], pts[j]
+                # dv*(u - bu) - du*(v - bv) == 0 passes through both points
+                line = atom(u).add(bu, -1).scale(dv).add(atom(v).add(bv, -1).scale(du), -1)
+                r.add(line)
+                r.add(line.scale(-1))
         return r
 
     def widen(self, new):
@@ -225,6 +379,7 @@ class State:
                 r.add(c)
         for k in set(self.condfacts) & set(new.condfacts):
             r.condfacts[k] = [l for l in self.condfacts[k] if any(l.norm() == m.norm() for m in new.condfacts[k])]
+        r.cong = self.cong_join(new)
         return r
 
     def leq(self, o):
@@ -236,7 +391,7 @@ class State:
         return all(self.entails(c, 3) for c in o.constraints())
 
     def signature(self):
-        return (frozenset(self.cons.items()), self.bottom)
+        return (frozenset(self.cons.items()), self.bottom, frozenset((v, k, b.norm()) for v, (k, b) in self.cong.items()))
 
 
 class AtomInfo:
@@ -294,14 +449,42 @@ class Analysis:
         self.obligations = []      # dicts
         self.callee_pairs = callee_pairs or {}
         self.untracked = 0
+        self.entry_facts = []
         self.param_names = {p["n"] for p in fn.params}
         self._declare_params(pairs)
         for b in buffers or []:
             self.buffers.append(b)
         self.ins = {}
+        self.templates = None
+        self.prov = self._provenance()
         self.loop_heads = set(h for (t, h) in fn.back_edges())
         self.progress = []
-        self.entry_facts = []
+        if not hasattr(self, "entry_facts"):
+            self.entry_facts = []
+
+    def _provenance(self):
+        """flow-insensitive: which pointer variables are (transitively) computed from a declared buffer's
+        base parameter / array.  A dereference through such a variable is never silently 'untracked'."""
+        fn = self.fn
+        prov = {}
+        for (b, size, label) in self.buffers:
+            prov[b.replace("@entry", "")] = label
+        changed = True
+        guard = 0
+        while changed and guard < 10:
+            changed = False
+            guard += 1
+            for bid, i, e in fn.roots():
+                for lhs, rhs in core.assigned_lhs(e):
+                    l = core.strip_casts(lhs)
+                    if l.get("k") != "ref" or self._tinfo(l["t"])["k"] != "ptr":
+                        continue
+                    for x in core.refs(rhs):
+                        if x["n"] in prov and l["n"] not in prov:
+                            # results of search helpers and pointer arithmetic keep the provenance
+                            prov[l["n"]] = prov[x["n"]]
+                            changed = True
+        return prov
 
     # ------------------------------------------------------------ atoms / types
     def _tinfo(self, tid):
@@ -326,6 +509,10 @@ class Analysis:
         mem = any(x.get("k") in ("mem", "sub") or (x.get("k") == "un" and x["op"] == "*") or x.get("k") == "call"
                   for x, _ in walk(e)) if e is not None else False
         nn = self._is_unsigned(e["t"]) if e is not None and "t" in e else False
+        if ub is None and e is not None and "t" in e:
+            ti = self._tinfo(e["t"])
+            if ti["k"] == "int" and not ti.get("sg") and ti.get("w") and ti["w"] <= 16:
+                ub = (1 << ti["w"]) - 1
         self.info.register(k, vars_, mem, nn, ub)
         return k
 
@@ -337,11 +524,29 @@ class Analysis:
             self.info.register(p["n"], {p["n"]}, False, self._is_unsigned(p["t"]))
         if pairs is None:
             pairs = guess_pairs(fn)
+        written = set()
+        for bid, i, e in fn.roots():
+            for n, ps in walk(e):
+                if n.get("k") == "bin" and n["op"].endswith("=") and n["op"] not in ("==", "!=", "<=", ">=") and \
+                        core.strip_casts(n["x"]).get("k") == "ref":
+                    written.add(core.strip_casts(n["x"])["n"])
+                if n.get("k") == "un" and n["op"] in ("post++", "post--", "pre++", "pre--") and core.strip_casts(n["e"]).get("k") == "ref":
+                    written.add(core.strip_casts(n["e"])["n"])
         for (pn, sn, unit_size) in pairs:
             if pn in names and (sn in names or isinstance(sn, int)):
                 es = unit_size if unit_size else 1
-                size = Lin({}, sn * es) if isinstance(sn, int) else atom(sn).scale(es)
-                self.buffers.append((pn, size, "%s[%s]" % (pn, sn)))
+                base, sz = pn, sn
+                # parameters that the function itself modifies get a ghost copy of their entry value
+                if pn in written:
+                    base = pn + "@entry"
+                    self.info.register(base, set(), False, True)
+                    self.entry_facts_pending = getattr(self, "entry_facts_pending", []) + [(pn, base)]
+                if not isinstance(sn, int) and sn in written:
+                    sz = sn + "@entry"
+                    self.info.register(sz, set(), False, True)
+                    self.entry_facts_pending = getattr(self, "entry_facts_pending", []) + [(sn, sz)]
+                size = Lin({}, sn * es) if isinstance(sn, int) else atom(sz).scale(es)
+                self.buffers.append((base, size, "%s[%s]" % (pn, sn)))
 
     # ------------------------------------------------------------ linearisation
     def lin(self, e, st, facts=None):
@@ -383,6 +588,13 @@ class Analysis:
             if self._tinfo(e["t"])["k"] == "arr":
                 self._maybe_buffer_local(e)
             return atom(a)
+        if k == "sub":
+            ub_ = self._table_ub(e, st)
+            if ub_ is not None:
+                a = self._reg_atom(e, ub=ub_)
+                self.info._ub[a] = ub_
+                self.info._nonneg[a] = True
+                return atom(a)
         if k in ("mem", "sub") or (k == "un" and e["op"] == "*"):
             if k == "mem" and self._tinfo(e["t"])["k"] == "arr":
                 a = self._reg_atom(e)
@@ -431,9 +643,11 @@ class Analysis:
                 ty = self._tinfo(core.strip_imp(e["y"])["t"]) if "t" in core.strip_imp(e["y"]) else {"k": "int"}
                 xp, yp = tx["k"] in ("ptr", "arr"), ty["k"] in ("ptr", "arr")
                 if xp and not yp:
-                    y = y.scale(self._elem_size(core.strip_imp(e["x"])["t"]))
+                    ym = self._lin_modular(e["y"], st)
+                    y = (ym if ym is not None else y).scale(self._elem_size(core.strip_imp(e["x"])["t"]))
                 elif yp and not xp and op == "+":
-                    x = x.scale(self._elem_size(core.strip_imp(e["y"])["t"]))
+                    xm = self._lin_modular(e["x"], st)
+                    x = (xm if xm is not None else x).scale(self._elem_size(core.strip_imp(e["y"])["t"]))
                 r = x.add(y, 1 if op == "+" else -1)
                 if xp and yp and op == "-":
                     s = self._elem_size(core.strip_imp(e["x"])["t"])
@@ -464,11 +678,16 @@ class Analysis:
             if op == "%" and const_val(e["y"]) and const_val(e["y"]) > 0:
                 return atom(self._reg_atom(e, ub=const_val(e["y"]) - 1))
             if op == "&":
-                for s_ in (e["x"], e["y"]):
+                for s_, o_ in ((e["x"], e["y"]), (e["y"], e["x"])):
                     m = const_val(s_)
                     if m is not None and m >= 0:
                         a = self._reg_atom(e, ub=m)
                         self.info._nonneg[a] = True
+                        # (x & M) <= x for unsigned x
+                        if facts is not None and "t" in core.strip_imp(o_) and self._is_unsigned(core.strip_imp(o_)["t"]):
+                            ox = self.lin(o_, st, None)
+                            if ox is not None:
+                                facts.append(atom(a).add(ox, -1))
                         return atom(a)
                 return atom(self._reg_atom(e))
             if op == "/" and const_val(e["y"]) and const_val(e["y"]) > 0:
@@ -510,6 +729,55 @@ class Analysis:
                 self.info._nonneg[a] = True
             return atom(a)
         return None
+
+    def _lin_modular(self, e, st):
+        """offset added to a pointer: address arithmetic is consistent modulo 2^64, so an unsigned
+        difference may be linearised without a no-wrap proof (p + (n - 1) == p + n - 1 as addresses)"""
+        e0 = core.strip_casts(e)
+        if e0 is None or e0.get("k") != "bin" or e0["op"] not in ("+", "-"):
+            return None
+        if self._tinfo(e0["t"]).get("w") != 64:
+            return None
+        x = self._lin_modular(e0["x"], st) or self.lin(e0["x"], st)
+        y = self._lin_modular(e0["y"], st) or self.lin(e0["y"], st)
+        if x is None or y is None:
+            return None
+        return x.add(y, 1 if e0["op"] == "+" else -1)
+
+    def _table_ub(self, e, st):
+        """largest value a read of a constant global table can yield, restricted to the index range if known"""
+        b = core.strip_casts(e["b"])
+        if b.get("k") != "ref" or b.get("dk") not in ("global", "slocal"):
+            return None
+        g = None
+        for gg in self.unit.global_list:
+            if gg["n"] == b["n"] and gg.get("const"):
+                g = gg
+        if g is None:
+            return None
+        vals = core.global_value(self.unit, g)
+        if isinstance(vals, str):
+            vals = [ord(ch) for ch in vals]
+        if not isinstance(vals, list) or not vals or not all(isinstance(v, int) for v in vals):
+            return None
+        if min(vals) < 0:
+            return None
+        idx = self.lin(e["i"], st)
+        lo, hi = 0, len(vals) - 1
+        if idx is not None:
+            if idx.is_const():
+                lo = hi = max(0, min(hi, idx.c))
+            else:
+                # constant upper bound of the index, if the state has one
+                for cand in (15, 31, 63, 127, 255, len(vals) - 1):
+                    if cand < hi and st.entails(idx.plus(-cand)):
+                        hi = cand
+                        break
+                for cand in (256, 128, 64):
+                    if cand <= hi and st.entails(idx.scale(-1).plus(cand)):
+                        lo = cand
+                        break
+        return max(vals[lo:hi + 1])
 
     def _lin_cond(self, e, c, st, facts):
         """MIN / MAX shaped conditionals give relational facts about the result atom"""
@@ -577,6 +845,15 @@ class Analysis:
                 return
             if not truth:
                 op = {"==": "!=", "!=": "==", "<": ">=", ">": "<=", "<=": ">", ">=": "<"}[op]
+            if op in ("<", ">"):
+                lo_, hi_ = (x, y) if op == "<" else (y, x)
+                d = hi_.add(lo_, -1)          # d >= 1
+                for k_ in sorted({k for (k, b) in st.cong.values() if k > 1} | {abs(cf) for cf in d.t.values() if abs(cf) > 1}):
+                    r_ = st.residue(d, k_)
+                    if r_ is not None:
+                        m_ = r_ if r_ >= 1 else k_
+                        if m_ > 1:
+                            st.add(lo_.add(hi_, -1).plus(m_))
             if op == "==":
                 st.add_eq(x, y)
             elif op == "<":
@@ -624,14 +901,17 @@ class Analysis:
             if rhs_lin is not None and nm in rhs_lin.t:
                 cf = rhs_lin.t[nm]
                 rest = rhs_lin.add(atom(nm), -cf)
-                if cf == 1 and rest.is_const():
-                    st.subst_var(nm, rest.c)
+                if cf == 1 and not any(nm in self.info.vars(a) for a in rest.t) and \
+                        not any(self.info.is_mem(a) for a in rest.t):
+                    st.subst_var(nm, rest if not rest.is_const() else rest.c)
                     return
                 st.havoc_var(nm)
                 return
             st.havoc_var(nm)
             if rhs_lin is not None:
                 st.add_eq(atom(nm), rhs_lin)
+                if not any(self.info.is_mem(a) for a in rhs_lin.t):
+                    st.cong[nm] = (0, rhs_lin)
             for f in facts or []:
                 st.add(f)
             return
@@ -690,7 +970,11 @@ class Analysis:
                 self._assign(st, tgt, old.plus(d) if old is not None else None)
                 if old is None:
                     return None
-                return old if op.startswith("post") else old.plus(d)
+                # express the value in terms of the *updated* variable
+                cur = self.lin(tgt, st)
+                if cur is None:
+                    return None
+                return cur.plus(-d) if op.startswith("post") else cur
             if op == "*":
                 v = self._ev(st, pos, e["e"], record)
                 self._access(st, pos, e, v, self._tinfo(e["t"]).get("size") or 1, "r", record)
@@ -731,6 +1015,10 @@ class Analysis:
                 self._lhs_access(st, pos, l, record)
                 old = self.lin(l, st)
                 new = None
+                if op == "*=" and l.get("k") == "ref" and rv is not None and rv.is_const() and rv.c > 0 and \
+                        self._tinfo(l["t"])["k"] in ("int",):
+                    st.scale_var(l["n"], rv.c)
+                    return None
                 if old is not None and rv is not None and op in ("+=", "-="):
                     scale = self._elem_size(l["t"]) if self._tinfo(l["t"])["k"] == "ptr" else 1
                     y = rv.scale(scale)
@@ -870,12 +1158,18 @@ class Analysis:
                         if st.entails(end.add(hi, -1).plus(-d)):
                             slack = d
                             break
-                if best is None or (slack is not None):
-                    best = (label, lo_ok, hi_ok, slack)
+                rank = (1 if b in addr.t else 0, 1 if lo_ok else 0, 1 if hi_ok else 0, 1 if slack is not None else 0)
+                if best is None or rank > best[0]:
+                    best = (rank, label, lo_ok, hi_ok, slack)
         if not related:
-            self.untracked += 1
+            pv = [self.prov[a] for a in addr.t if a in self.prov]
+            if not pv:
+                self.untracked += 1
+                return
+            self.obligations.append(dict(pos=pos, ln=ln, kind=rw, status="undecided", buf=pv[0], what=what or key(node),
+                                         detail="pointer derived from %s but no relation to its bounds is known here" % pv[0]))
             return
-        label, lo_ok, hi_ok, slack = best
+        rank, label, lo_ok, hi_ok, slack = best
         if slack is not None:
             self.obligations.append(dict(pos=pos, ln=ln, kind=rw, status="alarm", buf=label, what=what or key(node),
                                          detail="address is only known to stay within %d byte(s) past the end of %s "
@@ -903,7 +1197,13 @@ class Analysis:
         return False
 
     # ------------------------------------------------------------ fixpoint
+    PART_LEN = 5        # decisions remembered per partition key
+    PART_MAX = 12       # partitions per block
+
     def run(self, max_iter=400):
+        """worklist fixpoint with trace partitioning: the state of a block is a small set of conjunctive
+        states indexed by the most recent branch decisions (outside the current loop), so that correlated
+        conditions (the same test made twice) keep their correlation."""
         fn = self.fn
         init = State(self.info)
         for (b, size, label) in self.buffers:
@@ -912,55 +1212,213 @@ class Analysis:
                 self.info.register(a, {a}, False, True)
         for f in self.entry_facts:
             init.add(f)
-        ins = {fn.entry: init}
+        for (v, g) in getattr(self, "entry_facts_pending", []):
+            init.add_eq(atom(v), atom(g))
+            init.cong[v] = (0, atom(g))
+        loops = fn.loops()
+        # partition only on tests that are made more than once in the function (correlated branches)
+        def ckey(c):
+            c = core.strip_casts(c)
+            if c is None:
+                return None
+            while c.get("k") == "un" and c["op"] == "!":
+                c = core.strip_casts(c["e"])
+            if c.get("k") == "bin" and c["op"] in ("==", "!=", "<", ">", "<=", ">="):
+                a_, b_ = key(core.strip_casts(c["x"])), key(core.strip_casts(c["y"]))
+                if c["op"] in ("==", "!="):
+                    return "eq:" + "|".join(sorted((a_, b_)))
+                if c["op"] in (">", ">="):
+                    a_, b_ = b_, a_
+                return "lt:" + a_ + "|" + b_
+            return "t:" + key(c)
+        counts = {}
+        ckeys = {}
+        for bb in fn.reachable_blocks():
+            blk_ = fn.blocks[bb]
+            if blk_.cond is not None and len(blk_.succ) == 2:
+                ck = ckey(blk_.cond)
+                ckeys[bb] = ck
+                counts[ck] = counts.get(ck, 0) + 1
+        # a branch creates partitions only if both outcomes meet again before the function exit (diamonds);
+        # early-exit guards never multiply states
+        part_blocks = set()
+        for bb in ckeys:
+            blk_ = fn.blocks[bb]
+            s0, s1 = blk_.succ
+            if s0 is None or s1 is None:
+                continue
+            r0 = fn.reach_from([s0]) - {fn.exit}
+            r1 = fn.reach_from([s1]) - {fn.exit}
+            common = {x for x in (r0 & r1) if fn.blocks[x].elems or fn.blocks[x].term}
+            if common:
+                part_blocks.add(bb)
+        ins = {fn.entry: {(): init}}
         visits = {}
         order = fn.rpo()
         idx = {b: i for i, b in enumerate(order)}
         work = {fn.entry}
         it = 0
+        limit = max_iter * max(1, len(order))
         while work:
             it += 1
-            if it > max_iter * max(1, len(order)):
+            if it > limit:
+                self.diverged = True
                 break
             b = min(work, key=lambda x: idx.get(x, 1 << 30))
             work.discard(b)
-            st = ins[b].copy()
-            if st.bottom:
-                continue
             blk = fn.blocks[b]
-            for i, e in enumerate(blk.elems):
-                self.exec_elem(st, (b, i), e, False)
-            for si, s in enumerate(blk.succ):
-                if s is None:
+            is_branch = b in part_blocks and blk.term["k"] in ("IfStmt", "&&", "||", "?:")
+            for pkey, st0 in list(ins[b].items()):
+                st = st0.copy()
+                if st.bottom:
                     continue
-                es = st.copy()
-                self._edge(es, blk, si, s)
-                if es.bottom:
-                    continue
-                if s not in ins:
-                    ins[s] = es
-                    work.add(s)
-                else:
-                    old = ins[s]
-                    visits[s] = visits.get(s, 0) + 1
-                    if s in self.loop_heads and visits[s] > 2:
-                        new = old.widen(old.join(es))
-                    else:
-                        new = old.join(es)
-                    if new.signature() != old.signature():
-                        ins[s] = new
+                for i, e in enumerate(blk.elems):
+                    self.exec_elem(st, (b, i), e, False)
+                for si, s in enumerate(blk.succ):
+                    if s is None:
+                        continue
+                    es = st.copy()
+                    self._edge(es, blk, si, s)
+                    if es.bottom:
+                        continue
+                    nk = pkey + ((b, si),) if is_branch else pkey
+                    if s in self.loop_heads:
+                        body = loops.get(s, set())
+                        nk = tuple(d for d in nk if d[0] not in body)
+                    if len(nk) > self.PART_LEN:
+                        # keep decisions taken outside the loops around s (they are stable across iterations)
+                        # in preference to decisions taken inside them
+                        around = set()
+                        for h_, body_ in loops.items():
+                            if s in body_:
+                                around |= body_
+                        outer = [d for d in nk if d[0] not in around][-self.PART_LEN:]
+                        inner = [d for d in nk if d[0] in around]
+                        room = self.PART_LEN - len(outer)
+                        keep = set(outer) | set(inner[-room:] if room > 0 else [])
+                        nk = tuple(d for d in nk if d in keep)
+                    tgt = ins.setdefault(s, {})
+                    if nk not in tgt and len(tgt) >= self.PART_MAX:
+                        # too many partitions: merge everything at this point into one
+                        merged = None
+                        for v in tgt.values():
+                            merged = v if merged is None else merged.join(v)
+                        tgt.clear()
+                        tgt[()] = merged
+                        nk = ()
+                        self.part_merged = getattr(self, "part_merged", 0) + 1
+                    if nk not in tgt and () in tgt and len(tgt) == 1 and getattr(self, "part_merged", 0) and s in getattr(self, "_merged_at", set()):
+                        nk = ()
+                    if nk not in tgt:
+                        tgt[nk] = es
                         work.add(s)
-        self.ins = ins
-        # final pass: obligations
-        for b, st0 in ins.items():
-            if st0.bottom:
-                continue
-            st = st0.copy()
+                        if len(tgt) == 1 and nk == () and getattr(self, "part_merged", 0):
+                            self.__dict__.setdefault("_merged_at", set()).add(s)
+                    else:
+                        old = tgt[nk]
+                        if s in self.loop_heads:
+                            es = self.saturate(es)
+                            if visits.get((s, nk), 0) == 0:
+                                old = self.saturate(old.copy())
+                        visits[(s, nk)] = visits.get((s, nk), 0) + 1
+                        if s in self.loop_heads and visits[(s, nk)] > 2:
+                            newst = old.widen(old.join(es))
+                        else:
+                            newst = old.join(es)
+                        if newst.signature() != old.signature():
+                            tgt[nk] = newst
+                            work.add(s)
+        self.ins_parts = ins
+        # merged view (used by the loop-progress helper)
+        self.ins = {}
+        for b, parts in ins.items():
+            m = None
+            for v in parts.values():
+                m = v.copy() if m is None else m.join(v)
+            self.ins[b] = m
+        # final pass: obligations, aggregated over partitions
+        raw = []
+        for b, parts in ins.items():
             blk = fn.blocks[b]
-            for i, e in enumerate(blk.elems):
-                self.exec_elem(st, (b, i), e, True)
+            for pkey, st0 in parts.items():
+                if st0.bottom:
+                    continue
+                st = st0.copy()
+                self.obligations = []
+                for i, e in enumerate(blk.elems):
+                    self.exec_elem(st, (b, i), e, True)
+                raw.extend(self.obligations)
+        agg = {}
+        for o in raw:
+            k = (o["pos"], o["ln"], o["kind"], o["what"])
+            agg.setdefault(k, []).append(o)
+        self.obligations = []
+        for k, lst in agg.items():
+            sts = {o["status"] for o in lst}
+            if sts == {"proved"}:
+                self.obligations.append(lst[0])
+            elif "alarm" in sts:
+                self.obligations.append(next(o for o in lst if o["status"] == "alarm"))
+            else:
+                self.obligations.append(next(o for o in lst if o["status"] == "undecided"))
         self._progress()
         return self
+
+    def _collect_templates(self):
+        """difference forms x - y of every comparison made by the function: candidate invariants"""
+        ts = []
+        seen = set()
+        empty = State(self.info)
+        for bid in self.fn.reachable_blocks():
+            c = self.fn.blocks[bid].cond
+            if c is None:
+                continue
+            for n, ps in walk(c):
+                if n.get("k") == "bin" and n["op"] in ("<", ">", "<=", ">=", "==", "!="):
+                    x = self.lin(n["x"], empty)
+                    y = self.lin(n["y"], empty)
+                    if x is None or y is None:
+                        continue
+                    d = x.add(y, -1)
+                    d = Lin(d.t, 0)
+                    if not d.t or len(d.t) > 4 or any(self.info.is_mem(a) for a in d.t):
+                        continue
+                    k_ = d.norm()
+                    if k_ in seen or d.scale(-1).norm() in seen:
+                        continue
+                    seen.add(k_)
+                    ts.append(d)
+        # buffer ends: every pointer derived from a buffer is compared with its base and its end
+        labels = {label: (b, size) for (b, size, label) in self.buffers}
+        extra = []
+        for v, lab in sorted(self.prov.items()):
+            if lab not in labels:
+                continue
+            b, size = labels[lab]
+            self.info.register(v, {v}, False, True)
+            for d in (atom(v).add(atom(b), -1), atom(v).add(atom(b), -1).add(size, -1)):
+                d = Lin(d.t, 0)
+                if d.t and d.norm() not in seen and d.scale(-1).norm() not in seen:
+                    seen.add(d.norm())
+                    extra.append(d)
+        return (extra + ts)[:40]
+
+    def saturate(self, st):
+        """make entailed instances of the templates explicit so that the syntactic join keeps them"""
+        if self.templates is None:
+            self.templates = self._collect_templates()
+        if st.bottom:
+            return st
+        for d in self.templates:
+            for g in (d, d.scale(-1)):
+                # both the strict and the weak form are made explicit: widening keeps only what is
+                # literally present, and the weak form usually is the inductive one
+                if st.entails(g.plus(1), 3):
+                    st.add_weak(g.plus(1))
+                    st.add_weak(g)
+                elif st.entails(g, 3):
+                    st.add_weak(g)
+        return st
 
     def _edge(self, st, blk, si, s):
         c = blk.cond
@@ -1032,6 +1490,10 @@ class Analysis:
                                 lo, hi = (lo + 1 if pos else (lo if nonneg else -INF)), INF
                             else:
                                 lo, hi = -INF, (hi - 1 if pos else (hi if nonneg else INF))
+                    elif k == "bin" and n["op"] in ("/=", ">>=") and core.is_ref(n["x"], name=v) and \
+                            const_val(n["y"]) is not None and const_val(n["y"]) >= (2 if n["op"] == "/=" else 1):
+                        # unsigned value shrinks while it is non-zero (the loop condition tests it)
+                        lo, hi = -INF, (hi - 1 if hi < INF else INF)
                     elif k == "bin" and n["op"] == "=" and core.is_ref(n["x"], name=v):
                         # v = v + c / v = something greater than v (from state)
                         r = core.strip_casts(n["y"])
